@@ -10,7 +10,7 @@ Local Open Scope Z_scope.
 Definition kwf (now : N) (x : bkey) : Prop :=
   match bk_idx x, bk_vers x with
   | None, [] => True
-  | Some (r, tomb), (r', v) :: _ => r = r' /\ (0 < r)%N /\ (r <= now)%N /\ (tomb = true <-> v = tombstone) /\ v <> []
+  | Some (r, tomb), (r', v) :: _ => r = r' /\ (0 < r)%N /\ (r <= now)%N /\ (tomb = true <-> v = tombstone)
   | _, _ => False
   end.
 
@@ -23,13 +23,13 @@ Definition live (k : bytes) (x : bkey) : option pkv :=
 Lemma kwf_mono now now' x : (now <= now')%N -> kwf now x -> kwf now' x.
 Proof.
   unfold kwf. intros Hle. destruct (bk_idx x) as [[r tomb]|], (bk_vers x) as [|[r' v] rest]; auto.
-  intros (H1 & H2 & H3 & H4 & H5). repeat split; try assumption; try lia; apply H4.
+  intros (H1 & H2 & H3 & H4). repeat split; try assumption; try lia; apply H4.
 Qed.
 
 Lemma b_live_head now rev k x : kwf now x -> (now <= rev)%N -> b_live rev k x = live k x.
 Proof.
   unfold kwf, b_live, live. destruct (bk_idx x) as [[r tomb]|], (bk_vers x) as [|[r' v] rest]; try tauto.
-  intros (H1 & H2 & H3 & H4 & H5) Hle. cbn [vers_at]. subst r'.
+  intros (H1 & H2 & H3 & H4) Hle. cbn [vers_at]. subst r'.
   destruct (N.leb_spec r rev); [reflexivity|lia].
 Qed.
 
@@ -57,7 +57,7 @@ Inductive key_state (sb : bstate) (se : estate) (k : bytes) : Prop :=
 | KsDeleted r rest : bk_idx (b_find k (b_kv sb)) = Some (r, true) -> bk_vers (b_find k (b_kv sb)) = (r, tombstone) :: rest ->
              (0 < r <= b_rev sb)%N -> e_find k (e_cur se) = None -> key_state sb se k
 | KsLive r v rest y : bk_idx (b_find k (b_kv sb)) = Some (r, false) -> bk_vers (b_find k (b_kv sb)) = (r, v) :: rest ->
-             v <> tombstone -> v <> [] -> (0 < r <= b_rev sb)%N ->
+             v <> tombstone -> (0 < r <= b_rev sb)%N ->
              e_find k (e_cur se) = Some y -> k_key y = k -> k_val y = v -> k_mod y = Z.of_N r -> key_state sb se k.
 
 Lemma key_cases sb se k : R sb se -> key_state sb se k.
@@ -65,7 +65,7 @@ Proof.
   intros HR. pose proof (R_wf _ _ HR k) as Hwf. pose proof (R_kv _ _ HR k) as Hkv.
   unfold kwf, live in *. destruct (bk_idx (b_find k (b_kv sb))) as [[r tomb]|] eqn:Ei,
     (bk_vers (b_find k (b_kv sb))) as [|[r' v] rest] eqn:Ev; try tauto.
-  - destruct Hwf as (-> & H2 & H3 & H4 & H5). destruct tomb.
+  - destruct Hwf as (-> & H2 & H3 & H4). destruct tomb.
     + assert (v = tombstone) by (apply H4; reflexivity). subst v.
       rewrite beqb_refl in Hkv. destruct (e_find k (e_cur se)) eqn:Ef; [discriminate|].
       eapply KsDeleted; eauto.
@@ -190,7 +190,7 @@ Proof.
 Qed.
 
 Lemma R_put sb se k v y ev1 ev2 h vers :
-  R sb se -> v <> tombstone -> v <> [] ->
+  R sb se -> v <> tombstone ->
   bk_vers (b_find k (b_kv sb)) = vers ->
   pk y = (k, v, Z.of_N (b_rev sb) + 1) ->
   proj_event ev1 = proj_event (shim_event ev2) ->
@@ -198,7 +198,7 @@ Lemma R_put sb se k v y ev1 ev2 h vers :
   R (mkB (b_rev sb + 1) (b_set k (mkBK (Some (b_rev sb + 1, false)%N) ((b_rev sb + 1, v)%N :: vers)) (b_kv sb)) (b_events sb ++ [ev2]))
     (mkE nr (Z.max (e_now se) nr) (e_set y (e_cur se)) ((nr, e_set y (e_cur se)) :: h) (e_events se ++ [ev1])).
 Proof.
-  intros HR Hv Hne Hvers Hy Hev nr. destruct HR.
+  intros HR Hv Hvers Hy Hev nr. destruct HR.
   assert (Hky : k_key y = k) by (unfold pk in Hy; congruence).
   constructor; cbn [e_now e_rev e_cur e_events b_rev b_kv b_events].
   - rewrite R_now0. unfold nr. lia.
@@ -207,7 +207,7 @@ Proof.
   - apply bsorted_set; assumption.
   - intros k'. rewrite b_find_set. destruct (beqb k k') eqn:E.
     + unfold kwf; cbn [bk_idx bk_vers]. split; [reflexivity|]. split; [lia|]. split; [lia|].
-      split; [split; [intros H; discriminate H|intros H; contradiction]|assumption].
+      split; [intros H; discriminate H|intros H; contradiction].
     + eapply kwf_mono; [|apply R_wf0]. lia.
   - intros k'. rewrite e_find_set, b_find_set, Hky. destruct (beqb k k') eqn:E.
     + apply beqb_eq in E; subst k'. cbn [option_map]. rewrite Hy. unfold live; cbn.
@@ -233,7 +233,7 @@ Proof.
   - apply bsorted_set; assumption.
   - intros k'. rewrite b_find_set. destruct (beqb k k') eqn:E.
     + unfold kwf; cbn [bk_idx bk_vers]. split; [reflexivity|]. split; [lia|]. split; [lia|].
-      split; [split; intros; reflexivity|discriminate].
+      split; intros; reflexivity.
     + eapply kwf_mono; [|apply R_wf0]. lia.
   - intros k'. unfold st', e_remove_range.
     rewrite (e_find_filter (fun key => negb (in_range k [] key))), b_find_set.
@@ -305,10 +305,10 @@ Proof.
 Qed.
 
 Lemma sim_create sb se k v u lease :
-  R sb se -> bounded sb -> k <> [] -> v <> tombstone -> v <> [] -> union_mod u = 0 ->
+  R sb se -> bounded sb -> k <> [] -> v <> tombstone -> union_mod u = 0 ->
   sim_ok (q_create k v u lease) sb se.
 Proof.
-  intros HR Hb Hk Hv Hne Hu. unfold sim_ok.
+  intros HR Hb Hk Hv Hu. unfold sim_ok.
   set (nr := Z.of_N (b_rev sb) + 1).
   assert (Hshim : shim_txn sb (q_create k v u lease) =
                   let '(st', rev, ok) := b_create sb k v BCreate in (st', TOk (i64_of_N rev) ok [RsPut (i64_of_N rev) None])).
@@ -320,19 +320,19 @@ Proof.
   change (t_fail (q_create k v u lease)) with (@nil reqop).
   rewrite (eval_mod_cmp se k u (R_es _ _ HR)), Hu.
   unfold b_create.
-  destruct (key_cases sb se k HR) as [Hi Hvs He | r rest Hi Hvs Hr He | r v0 rest y Hi Hvs Hv0 Hne0 Hr He Hyk Hyv Hym].
+  destruct (key_cases sb se k HR) as [Hi Hvs He | r rest Hi Hvs Hr He | r v0 rest y Hi Hvs Hv0 Hr He Hyk Hyv Hym].
   - (* absent: both create *)
     rewrite Hi, He. cbn [Z.eqb apply_ops apply_op q_put].
     rewrite (apply_put_new nr _ _ _ k v lease He). cbn [fst snd w_wrote w_store w_events app].
     rewrite (i64_rev sb Hb). split; [reflexivity|]. split; [discriminate|]. split; [|reflexivity].
-    rewrite Hvs. eapply (R_put sb se k v _ _ _ _ [] HR Hv Hne); [rewrite Hvs; reflexivity| reflexivity |].
+    rewrite Hvs. eapply (R_put sb se k v _ _ _ _ [] HR Hv); [rewrite Hvs; reflexivity| reflexivity |].
     cbn. rewrite (i64_rev sb Hb). reflexivity.
   - (* deleted: both create *)
     rewrite Hi, He. assert (Hlt : (r <? b_rev sb + 1)%N = true) by (apply N.ltb_lt; lia). rewrite Hlt.
     cbn [andb Z.eqb apply_ops apply_op q_put].
     rewrite (apply_put_new nr _ _ _ k v lease He). cbn [fst snd w_wrote w_store w_events app].
     rewrite (i64_rev sb Hb). split; [reflexivity|]. split; [discriminate|]. split; [|reflexivity].
-    eapply (R_put sb se k v _ _ _ _ _ HR Hv Hne); [reflexivity | reflexivity |].
+    eapply (R_put sb se k v _ _ _ _ _ HR Hv); [reflexivity | reflexivity |].
     cbn. rewrite (i64_rev sb Hb). reflexivity.
   - (* live: both refuse *)
     rewrite Hi, He. cbn [andb].
@@ -468,11 +468,11 @@ Proof.
 Qed.
 
 Lemma sim_update_scope sb se k v u lease lim :
-  R sb se -> bounded sb -> k <> [] -> v <> tombstone -> v <> [] ->
+  R sb se -> bounded sb -> k <> [] -> v <> tombstone ->
   0 <= union_mod u <= Z.of_N (b_rev sb) + 1 ->
   sim_ok (q_update k v u lease lim) sb se.
 Proof.
-  intros HR Hb Hk Hv Hne He. unfold sim_ok. set (nr := Z.of_N (b_rev sb) + 1). set (e := union_mod u) in *.
+  intros HR Hb Hk Hv He. unfold sim_ok. set (nr := Z.of_N (b_rev sb) + 1). set (e := union_mod u) in *.
   pose proof (R_es _ _ HR) as Hs.
   rewrite shim_update_eq. fold e.
   assert (Hexp : u64_of_Z e = Z.to_N e) by (apply u64_of_Z_small; unfold bounded, two63 in Hb; lia).
@@ -482,17 +482,17 @@ Proof.
     rewrite E0. cbn [Z.to_N N.eqb]. unfold b_create.
     assert (Hcmp : eval_cmps (e_cur se) [q_cmp k u] = match e_find k (e_cur se) with Some y => k_mod y =? 0 | None => true end).
     { rewrite (eval_mod_cmp se k u Hs). fold e. rewrite E0. reflexivity. }
-    destruct (key_cases sb se k HR) as [Hi Hvs Hf | r rest Hi Hvs Hr Hf | r v0 rest y Hi Hvs Hv0 Hne0 Hr Hf Hyk Hyv Hym].
+    destruct (key_cases sb se k HR) as [Hi Hvs Hf | r rest Hi Hvs Hr Hf | r v0 rest y Hi Hvs Hv0 Hr Hf Hyk Hyv Hym].
     + rewrite Hi. rewrite Hf in Hcmp.
       rewrite (etcd_update_succ_new se nr k v u lease lim Hk Hs Hcmp Hf). cbn [fst snd].
       rewrite (i64_rev sb Hb). split; [reflexivity|]. split; [discriminate|]. split; [|reflexivity].
-      rewrite Hvs. eapply (R_put sb se k v _ _ _ _ [] HR Hv Hne); [rewrite Hvs; reflexivity|reflexivity|].
+      rewrite Hvs. eapply (R_put sb se k v _ _ _ _ [] HR Hv); [rewrite Hvs; reflexivity|reflexivity|].
       cbn. rewrite (i64_rev sb Hb). reflexivity.
     + rewrite Hi. assert (Hlt : (r <? b_rev sb + 1)%N = true) by (apply N.ltb_lt; lia). rewrite Hlt. cbn [andb].
       rewrite Hf in Hcmp.
       rewrite (etcd_update_succ_new se nr k v u lease lim Hk Hs Hcmp Hf). cbn [fst snd].
       rewrite (i64_rev sb Hb). split; [reflexivity|]. split; [discriminate|]. split; [|reflexivity].
-      eapply (R_put sb se k v _ _ _ _ _ HR Hv Hne); [reflexivity|reflexivity|].
+      eapply (R_put sb se k v _ _ _ _ _ HR Hv); [reflexivity|reflexivity|].
       cbn. rewrite (i64_rev sb Hb). reflexivity.
     + rewrite Hi. cbn [andb b_kv].
       rewrite (b_get_live sb k r v0 rest Hb ltac:(lia) Hv0 Hvs).
@@ -509,7 +509,7 @@ Proof.
     rewrite Hd.
     assert (Hcmp : eval_cmps (e_cur se) [q_cmp k u] = match e_find k (e_cur se) with Some y => k_mod y =? e | None => false end).
     { rewrite (eval_mod_cmp se k u Hs). fold e. destruct (e_find k (e_cur se)); [reflexivity|]. apply Z.eqb_neq. lia. }
-    destruct (key_cases sb se k HR) as [Hi Hvs Hf | r rest Hi Hvs Hr Hf | r v0 rest y Hi Hvs Hv0 Hne0 Hr Hf Hyk Hyv Hym].
+    destruct (key_cases sb se k HR) as [Hi Hvs Hf | r rest Hi Hvs Hr Hf | r v0 rest y Hi Hvs Hv0 Hr Hf Hyk Hyv Hym].
     + rewrite Hi. rewrite (b_get_absent sb k Hvs). rewrite Hf in Hcmp.
       rewrite (etcd_update_fail se nr k v u lease lim Hk Hs Hcmp). cbn [fst snd]. unfold get_resp. rewrite Hf.
       split; [reflexivity|split; [discriminate|split; [apply R_burn; [assumption|reflexivity]|reflexivity]]].
@@ -521,7 +521,7 @@ Proof.
         assert (Hm : (k_mod y =? e) = true) by (apply Z.eqb_eq; lia). rewrite Hm in Hcmp.
         rewrite (etcd_update_succ_old se nr k v u lease lim y Hk Hs Hcmp Hf). cbn [fst snd].
         rewrite (i64_rev sb Hb). split; [reflexivity|]. split; [discriminate|]. split; [|reflexivity].
-        rewrite Hvs. eapply (R_put sb se k v _ _ _ _ _ HR Hv Hne); [exact Hvs|reflexivity|].
+        rewrite Hvs. eapply (R_put sb se k v _ _ _ _ _ HR Hv); [exact Hvs|reflexivity|].
         cbn. rewrite (i64_rev sb Hb). reflexivity.
       * assert (Hm : (k_mod y =? e) = false) by (apply Z.eqb_neq; lia). rewrite Hm in Hcmp.
         rewrite (b_get_live sb k r v0 rest Hb ltac:(lia) Hv0 Hvs).
@@ -568,7 +568,7 @@ Proof.
   assert (Hcmp : eval_cmps (e_cur se) [q_cmp k u] = false).
   { rewrite (eval_mod_cmp se k u Hs), Hf. apply Z.eqb_neq. lia. }
   assert (Hg : b_get (b_kv sb) k 0 = GNotFound).
-  { destruct (key_cases sb se k HR) as [Hi Hvs Hf' | r rest Hi Hvs Hr Hf' | r v0 rest y Hi Hvs Hv0 Hne0 Hr Hf' Hyk Hyv Hym].
+  { destruct (key_cases sb se k HR) as [Hi Hvs Hf' | r rest Hi Hvs Hr Hf' | r v0 rest y Hi Hvs Hv0 Hr Hf' Hyk Hyv Hym].
     - apply b_get_absent; assumption.
     - eapply b_get_deleted; eauto; lia.
     - congruence. }
@@ -587,7 +587,7 @@ Proof.
   pose proof (R_es _ _ HR) as Hs. rewrite shim_delete_eq. fold e.
   assert (Hexp : u64_of_Z e = Z.to_N e) by (apply u64_of_Z_small; unfold bounded, two63 in Hb; lia).
   rewrite Hexp. unfold b_delete.
-  destruct (key_cases sb se k HR) as [Hi Hvs Hf | r rest Hi Hvs Hr Hf | r v0 rest y Hi Hvs Hv0 Hne0 Hr Hf Hyk Hyv Hym]; try congruence.
+  destruct (key_cases sb se k HR) as [Hi Hvs Hf | r rest Hi Hvs Hr Hf | r v0 rest y Hi Hvs Hv0 Hr Hf Hyk Hyv Hym]; try congruence.
   rewrite (b_get_live sb k r v0 rest Hb ltac:(lia) Hv0 Hvs).
   assert (Hd : drift (Z.to_N e) (b_rev sb + 1) = false).
   { unfold drift. apply andb_false_iff. right. apply N.ltb_ge. unfold nr in *. lia. }
@@ -618,7 +618,7 @@ Lemma sim_delete_hostile sb se k u lim y :
 Proof.
   intros HR Hb Hf He. destruct (hostile_drift sb _ Hb He) as [Hd Hz].
   unfold rejected. rewrite shim_delete_eq. unfold b_delete.
-  destruct (key_cases sb se k HR) as [Hi Hvs Hf' | r rest Hi Hvs Hr Hf' | r v0 rest y' Hi Hvs Hv0 Hne0 Hr Hf' Hyk Hyv Hym]; try congruence.
+  destruct (key_cases sb se k HR) as [Hi Hvs Hf' | r rest Hi Hvs Hr Hf' | r v0 rest y' Hi Hvs Hv0 Hr Hf' Hyk Hyv Hym]; try congruence.
   rewrite (b_get_live sb k r v0 rest Hb ltac:(lia) Hv0 Hvs), Hd. cbn [fst snd b_kv b_events b_rev].
   split; [reflexivity|]. split; [reflexivity|]. split; [reflexivity|]. apply R_burn'. assumption.
 Qed.
@@ -631,7 +631,7 @@ Lemma sim_deleteu_live sb se k lim y :
 Proof.
   intros HR Hb Hk Hf0. unfold sim_ok. set (nr := Z.of_N (b_rev sb) + 1).
   pose proof (R_es _ _ HR) as Hs. rewrite shim_deleteu_eq. unfold b_delete.
-  destruct (key_cases sb se k HR) as [Hi Hvs Hf | r rest Hi Hvs Hr Hf | r v0 rest y' Hi Hvs Hv0 Hne0 Hr Hf Hyk Hyv Hym]; try congruence.
+  destruct (key_cases sb se k HR) as [Hi Hvs Hf | r rest Hi Hvs Hr Hf | r v0 rest y' Hi Hvs Hv0 Hr Hf Hyk Hyv Hym]; try congruence.
   rewrite (b_get_live sb k r v0 rest Hb ltac:(lia) Hv0 Hvs).
   unfold drift. cbn [N.ltb N.compare andb negb].
   assert (Hle : (b_rev sb + 1 <=? r)%N = false) by (apply N.leb_gt; lia). rewrite Hle.
